@@ -82,6 +82,7 @@ class Spec:
                  post_ok=None):
         self.unroll = unroll
         self.post_ok = post_ok
+        self.inv_on_err = False
         self.key, self.find, self.widths, self.inv, self.pre, self.self_base, self.doc = key, find, widths, inv, pre, self_base, doc
         self.allow_panic = allow_panic
         self.inline = inline
@@ -147,8 +148,10 @@ def analyse(F, spec, w, extra_contracts=None):
     paths = wk.run()
 
     def inv_at_return(num, p):
-        out = list(spec.inv(num, w, p.mem))
         r = p.ret
+        is_err = isinstance(r, tuple) and ((r[0] == "agg" and r[3] == "Err") or r[0] == "from_residual")
+        # the invariant is owed on successful returns (the properties are silent about a stream whose backend failed)
+        out = [] if (is_err and not spec.inv_on_err) else list(spec.inv(num, w, p.mem))
         if spec.post_ok is not None and isinstance(r, tuple) and r[0] == "agg" and r[3] == "Ok":
             num.ctx_events = p.state["events"]
             num.ctx_cons = p.state["cons"]
